@@ -342,6 +342,8 @@ def replay(ctx, case):
         got = (gen.day_of(r.date), r.nanosecond_of_day)
         if got != (ed, et) or gen.ymd(r.date) != gen.ymd(gen.date_of(ed, cal)):
             ctx.V(f"C10:ldt-plus:{name}", f"{cid} day {d} t={t} plus_{name}({n}) = {got} ymd {gen.ymd(r.date)}; model {(ed, et)}", case, got, (ed, et))
+    elif "part" in ctx.shard:
+        run(ctx, ctx.shard)      # original shard restored by the runner
     elif k in ("ldt_period", "ldt"):
         run_ldt(ctx, case["cal"])
     else:
